@@ -115,6 +115,35 @@ def generate(tier, seed, ctx):
             base = max(1, base + rng.choice([-2, -1, -1, 0, 1, 1, 2]))
             mem.append((base,) + _iv())
         _seq(mem)
+    # equal widths at different positions, same order (a rule is NOT fixed by order and width alone)
+    for n in [5, 30] + [rng.randint(1, 40) for _ in range(2 if not thorough else 8)]:
+        w = rng.choice([1.0, 0.5, 2.5, 3.0])
+        p0 = dyadic(rng, -8, 8, 2)
+        _seq([(n, p0, p0 + w), (n, p0 + w, p0 + 2 * w), (n, p0 - 4.0, p0 - 4.0 + w)])
+        _seq([(n, 0.0, w), (n, -w / 2, w / 2), (n, w, 0.0), (n, 3 * w, 2 * w)])
+    # histories of the integrating overload (func,a,b,n): equal-width panels at different positions with the same n
+    # (composite integration), same location with different n, reversed widths, random
+    def _iseq(c, mem):
+        R.append("c12.iseq %s %d %s" % (lst(c), len(mem), " ".join("%d %s %s" % (n, hx(a), hx(b)) for n, a, b in mem)))
+    _iseq([1.0, -2.0, 0.0, 1.0], [(5, 0.0, 1.0), (5, 1.0, 2.0), (5, 2.0, 3.0)])          # x^3 - 2x + 1 on equal panels
+    _iseq([1.0, -2.0, 0.0, 1.0], [(5, 0.0, 2.5), (5, -1.25, 1.25)])
+    for t in range(8 if not thorough else 30):
+        n = rng.choice([1, 2, 3, 5, 8, 16, 30, 31]) if t % 2 else rng.randint(1, 40)
+        deg = rng.randint(0, min(2 * n - 1, 9))
+        c = [float(rng.randint(-9, 9)) / rng.choice([1, 2, 4]) for _ in range(deg)] + [1.0]
+        w = rng.choice([0.25, 0.5, 1.0, 1.5, 2.0])
+        p0 = dyadic(rng, -3, 3, 2)
+        kind = t % 4
+        if kind == 0:      # composite panels, ascending then one far away
+            mem = [(n, p0 + i * w, p0 + (i + 1) * w) for i in range(3)] + [(n, p0 - 2.0, p0 - 2.0 + w)]
+        elif kind == 1:    # reversed equal widths, and the same panel in both directions
+            mem = [(n, p0 + w, p0), (n, p0 + 3 * w, p0 + 2 * w), (n, p0 + 2 * w, p0 + 3 * w), (n, p0, p0 + w)]
+        elif kind == 2:    # same location, different orders (all exact for the degree)
+            n2 = n + rng.choice([1, 2, 7])
+            mem = [(n, p0, p0 + w), (n2, p0, p0 + w), (n, p0 + w, p0 + 2 * w), (n2, p0 + w, p0 + 2 * w)]
+        else:              # random walk of positions with one width, mixed with another width
+            mem = [(n, q, q + (w if j % 3 else 2 * w)) for j, q in enumerate(dyadic(rng, -3, 3, 2) for _ in range(5))]
+        _iseq(c, mem)
     # overloads on explicit data: equal and mismatched sizes
     for t in range(120 if thorough else 40):
         n = rng.randint(0, 12)
@@ -344,6 +373,49 @@ def compare_seq(rq, impl, model, ctx):
     return out
 
 
+def compare_iseq(rq, impl, model, ctx):
+    """history of the integrating overload (theorem integ_history_independent): bit-identical to the same call alone and
+    to the two rule-taking overloads on Compute_(n,a,b); exact on polynomials of degree <= 2n-1"""
+    a = rq.split()[1:]
+    nc = int(a[0])
+    c = [Fraction(fl(t)) for t in a[1:1 + nc]]
+    k = int(a[1 + nc])
+    mem = [(int(a[2 + nc + 3 * i]), fl(a[3 + nc + 3 * i]), fl(a[4 + nc + 3 * i])) for i in range(k)]
+    fs, both = std_outcome(rq, impl, model)
+    if tag(impl) == "timeout":
+        return [fail("prop", "Newton iteration does not terminate", rq[:80])]
+    if tag(impl) != "ok":
+        return fs or [fail("prop", "integration failed", impl[:100])]
+    t = toks(impl)
+    if len(t) != 2 + 4 * k or t[k + 1] != "alone":
+        return fs + [fail("corr", "protocol", impl[:100])]
+    out = list(fs)
+    ctx["nontrivial"].add(("c12.iseq", tuple((n, Fraction(x1) - Fraction(x0)) for n, x0, x1 in mem)))
+    tm = toks(model)[1:] if tag(model) == "ok" else None
+    for i, (n, x0, x1) in enumerate(mem):
+        sv = t[1 + i]
+        r1, r2, r3 = t[k + 2 + 3 * i:k + 5 + 3 * i]
+        hist = "Integrate_Gauss_Legendre(f, %r, %r, %d) after [%s]" % (x0, x1, n, "; ".join("(%r,%r,n=%d)" % (p, q, m_) for m_, p, q in mem[:i]))
+        if sv != r1:
+            out.append(fail("prop", "Gauss-Legendre rule depends on the calls made before it",
+                            "%s returned %r, alone in a fresh process %r" % (hist, fl(sv), fl(r1))))
+        if not (sv == r2 == r3):
+            out.append(fail("prop", "the three Integrate_Gauss_Legendre overloads disagree on the same rule",
+                            "%s returned %r, the rule-taking overloads on Compute_(n,a,b) %r / %r" % (hist, fl(sv), fl(r2), fl(r3))))
+        A, B = Fraction(x0), Fraction(x1)
+        if len(c) - 1 <= 2 * n - 1:
+            exact = sum(ck * (B ** (j + 1) - A ** (j + 1)) / (j + 1) for j, ck in enumerate(c))
+            scale = sum(abs(ck) * max(abs(A), abs(B)) ** j for j, ck in enumerate(c)) * abs(B - A)
+            tol = Fraction(256 * (len(c) + 4)) * EPS * scale * (1 + Fraction(n, 64))
+            v = fl(sv)
+            if math.isnan(v) or math.isinf(v) or abs(Fraction(v) - exact) > tol:
+                out.append(fail("prop", "polynomial of degree <= 2n-1 not integrated exactly (integrating overload)",
+                                "%s: %r vs %.17g" % (hist, v, float(exact))))
+            elif tm is not None and abs(fr(tm[i]) - exact) > tol:
+                out.append(fail("corr", "integrating overload differs from the model", "member %d" % i))
+    return out
+
+
 def compare(rq, impl, model, ctx):
     op = rq.split(" ", 1)[0]
     a = rq.split()[1:]
@@ -363,6 +435,8 @@ def compare(rq, impl, model, ctx):
         return []
     if op == "c12.seq":
         return compare_seq(rq, impl, model, ctx)
+    if op == "c12.iseq":
+        return compare_iseq(rq, impl, model, ctx)
     fs, both = std_outcome(rq, impl, model)
     if op in ("c12.rule", "c12.sel"):
         n, x0, x1 = int(a[0]), fl(a[1]), fl(a[2])
@@ -440,6 +514,8 @@ def oracle_only(rq, impl, ctx):
     op = rq.split(" ", 1)[0]
     if op == "c12.seq":
         return [f for f in compare_seq(rq, impl, "undef", ctx) if f["kind"] == "prop"]
+    if op == "c12.iseq":
+        return [f for f in compare_iseq(rq, impl, "undef", ctx) if f["kind"] == "prop"]
     a = rq.split()[1:]
     if op in ("c12.rule", "c12.sel") and tag(impl) == "ok":
         n, x0, x1 = int(a[0]), fl(a[1]), fl(a[2])
